@@ -48,10 +48,19 @@ pub struct CtSpec {
     /// "u32" (default) | "u16" | "u8": the storage type of the builders' lexer types
     #[serde(default)]
     pub storaget: Option<String>,
+    /// with `lexer_only_rule_ids`: also generate the token map module `<token_map_dir>/<mod>.rs`
+    /// from the same ids with CTTokenMapBuilder (what users of a hand-written lexer do)
+    #[serde(default)]
+    pub token_map_mod: Option<String>,
+    #[serde(default)]
+    pub token_map_dir: Option<String>,
 }
 
 #[derive(Serialize, Deserialize, Clone, Debug, Default, PartialEq)]
 pub struct CtResult {
+    /// outcome of the CTTokenMapBuilder build, if one was asked for
+    #[serde(default)]
+    pub token_map: Option<String>,
     pub parser_ok: bool,
     pub parser_error: Option<String>,
     pub regenerated: Option<bool>,
@@ -177,6 +186,17 @@ macro_rules! ct_impl {
                         Ok(Ok(())) => out.lexer_ok = true,
                         Ok(Err(e)) => out.lexer_error = Some(e),
                         Err(p) => out.panicked = Some(p.detail()),
+                    }
+                    if let (Some(m), Some(d)) = (&spec.token_map_mod, &spec.token_map_dir) {
+                        // CTTokenMapBuilder writes to $OUT_DIR (this process has one thread here)
+                        unsafe { std::env::set_var("OUT_DIR", d) };
+                        let map: std::collections::HashMap<String, $t> = ids.iter().map(|(n, i)| (n.clone(), *i as $t)).collect();
+                        let m = m.clone();
+                        out.token_map = Some(match crate::exec::catch(move || lrlex::CTTokenMapBuilder::<$t>::new(m, map).allow_dead_code(true).build().map_err(|e| e.to_string())) {
+                            Ok(Ok(())) => "ok".to_string(),
+                            Ok(Err(e)) => format!("err: {e}"),
+                            Err(p) => format!("panic: {}", p.detail()),
+                        });
                     }
                     return out;
                 }
